@@ -1,7 +1,7 @@
 import _crdt
 PROP = _crdt.prop("DefraModel.Props.C04", ["dag-content-address", "dag-missing-block", "dag-height", "head-height", "heads-not-maximal", "genesis-differs", "panic"])
 META = dict(
-    text="Lean theorems: updateHeads computes exactly (heads minus named parents/links) plus the new block, without duplicates, and preserves 'heads = merged commits no merged commit names as parent' for every parents-first history. Content addressing, closure under links, the height rule and genesis determinism are observed on every block of every generated history; the AddDelta rule is re-derived by the mirror for every local write.",
+    text="Lean theorems: updateHeads computes exactly (heads minus named parents/links) plus the new block, without duplicates, and preserves 'heads = merged commits no merged commit names as parent' for every parents-first history; the height rule holds for every commit after every history of local writes and merges of rule-conformant commits, because the heights recorded in the head store — all AddDelta reads — are the parents' true heights in every reachable state (invariant), and under the rule heights strictly increase along parent links (no cycle). Content addressing, closure under links, the height rule and genesis determinism are observed on every block of every generated history; the AddDelta rule is re-derived by the mirror for every local write.",
     design_ref="DESIGN.md section 8, C01/C02/C04", note=_crdt.NOTE,
     technique="Lean 4 proof (head-set invariant) + differential correspondence + DAG well-formedness oracles")
 # the encr engine (C11) also runs for C04: its histories of encrypted documents (incl. encrypted counters) are judged by the
